@@ -36,7 +36,7 @@ def run(chk):
         chk.count(1, ("range", rec["qed"], tuple(map(tuple, rec["labs"]))), nontrivial=rec["got"] != [3, 3])
     recs += ranges
     chk.assume("get_range: label sets contain the T ladder of every V ladder (assumption documented in get_range)")
-    draws = 10 if chk.thorough() else 3
+    draws = 8 if chk.thorough() else 2
     blows = []
     for _ in range(draws):
         for qed in (False, True):
@@ -96,7 +96,7 @@ def run(chk):
     good = next(x for x in blows if x["fam"] == "physical" and x["nf"] == 4 and not x["qed"] and not x["err"])
     c1 = copy.deepcopy(good)
     k = next(j for j, x in enumerate(c1["tensor"][9]) if x[0] != 0)
-    c1["tensor"][9][k] = [c1["tensor"][9][k][0] + 1, c1["tensor"][9][k][1]]
+    c1["tensor"][9][k] = [c1["tensor"][9][k][0] + c1["tensor"][9][k][1], c1["tensor"][9][k][1]]  # + 1
     c2 = copy.deepcopy(good)
     c2["members"] = [m for m in c2["members"] if m[:2] != ["T15", "T15"]]
     c2["emembers"] = [m for m in c2["emembers"] if m[:2] != ["T15", "T15"]]
